@@ -204,13 +204,22 @@ func (s *searcher) splitCanonical(b []byte) {
 
 // alloc: bytes allocated while decoding b into interface{} / []byte stay proportional to len(b).
 func (s *searcher) alloc(t *Ty, b []byte) {
-	var m0, m1 runtime.MemStats
-	runtime.ReadMemStats(&m0)
-	s.decode(t, b)
-	runtime.ReadMemStats(&m1)
-	d := m1.TotalAlloc - m0.TotalAlloc
-	if d > uint64(512*len(b))+(1<<20) {
-		s.finding("alloc", "dec "+t.String()+" "+hx.Hex(b), fmt.Sprintf("allocated %d bytes for %d input bytes", d, len(b)))
+	// building the reflect type and filling rlp's type cache allocate a lot and are not part
+	// of decoding this input: do both first, then take the smaller of two measurements
+	s.decode(t, nil)
+	s.decode(t, []byte{0xc0})
+	best := ^uint64(0)
+	for i := 0; i < 2; i++ {
+		var m0, m1 runtime.MemStats
+		runtime.ReadMemStats(&m0)
+		s.decode(t, b)
+		runtime.ReadMemStats(&m1)
+		if d := m1.TotalAlloc - m0.TotalAlloc; d < best {
+			best = d
+		}
+	}
+	if best > uint64(512*len(b))+(1<<20) {
+		s.finding("alloc", "dec "+t.String()+" "+hx.Hex(b), fmt.Sprintf("allocated %d bytes for %d input bytes", best, len(b)))
 	}
 }
 
@@ -403,6 +412,29 @@ func searchMain(a map[string]string) {
 					m[j] ^= 0x40
 					s.canonical(t, m)
 				}
+			}
+		}
+		// a hostile (huge / boundary) declared size somewhere inside a well-formed tree
+		for k := 0; k < 4; k++ {
+			base := randItem(r, 3, false)
+			if r.Chance(1, 3) {
+				base = []interface{}{}
+			}
+			benc, _ := rlp.EncodeToBytes(base)
+			if len(benc) > 400 {
+				continue
+			}
+			tree := plant(r, base, rlp.RawValue(hostile(r, len(benc))))
+			enc, err := rlp.EncodeToBytes(tree)
+			if err != nil {
+				continue
+			}
+			s.canonical(anyT, enc)
+			s.canonical(shapeTy(r, tree), enc)
+			s.canonical(shapeTy(r, tree), enc)
+			s.splitCanonical(enc)
+			if k == 0 {
+				s.alloc(shapeTy(r, tree), enc)
 			}
 		}
 		m := malformed(r)
